@@ -131,6 +131,10 @@ string parse_command_all_word() { return "all"; }
 string *parse_command_id_list() { return ({ "thing" }); }
 string *parse_command_plural_id_list() { return ({ "things" }); }
 string *parse_command_adjectiv_id_list() { return ({ }); }
+#ifdef OBJECT_NAME_SPIN
+// applied by sprintf("%O") through safe_apply: a callback that never returns on its own
+string object_name(object ob) { while (1) ; return "x"; }
+#endif
 int valid_bind(object binder, object old_owner, object new_owner) { return 1; }
 void log_error(string file, string msg) { rec("LOGERR " + file + " " + msg); }
 
